@@ -193,6 +193,9 @@ def generate(rng, tier):
         elif r < 0.82:
             op = {"op": "fixed_len", "dst": dst, "a": rng.choice(sorted(live)),
                   "n": rng.choice([0, 1, 2, 3, 5, 8, 13, 21, "len", "len", "len-1", "len+1"])}
+            if rng.random() < 0.2:
+                # the same through the public helper over the text's chunks: CHText(*resize_chunks_list(t.chunks, n))
+                op["via"] = "chunks"
         elif r < 0.88:
             op = {"op": "format", "a": rng.choice(sorted(live)), "spec": gen_spec(rng)}
         elif r < 0.92:
@@ -669,7 +672,12 @@ def apply(w, op):
             n = max(0, len(m.cells) + {"len": 0, "len-1": -1, "len+1": 1}[n])
         out = list(m.cells[:n]) + [(" ", sgr.PLAIN)] * max(0, n - len(m.cells))
         try:
-            x = w.real[op["a"]].fixed_len(n)
+            src = w.real[op["a"]]
+            if op.get("via") == "chunks" and isinstance(src, CHText):
+                x = type(src)(*type(src).resize_chunks_list(src.chunks, n))
+                st["resize_chunks_ops"] = st.get("resize_chunks_ops", 0) + 1
+            else:
+                x = src.fixed_len(n)
         except Exception as e:
             raise Violation("text", f"fixed_len-raised-{type(e).__name__}", repr(e))
         if x is w.real[op["a"]]:
